@@ -20,6 +20,8 @@ for n in names:
         nf = re.search(r'VIOLATION property=%s [^\n]*no-failing-input-found' % c, res)
         if mm: caught.append('%s (%s%s)' % (c, mm.group(1).strip(), '; no-failing-input-found' if nf else ''))
         else: missed.append(c)
+    if '--dry' in sys.argv:
+        print(n, 'caught:', [c.split(' ')[0] for c in caught], flush=True); continue
     m = json.load(open(os.path.join(d, 'meta.json')))
     if own_only:
         own = checks[0]
